@@ -1,4 +1,4 @@
-import MuscleModel.Wildcard.Code
+import MuscleModel.Wildcard.Tables
 
 /-!
 # C15 — lemmas, part 1: the executable matcher equals the relation; the intended ERE means the same as the
